@@ -241,9 +241,23 @@ impl Stats {
 
 pub const CHUNK: u64 = 512;
 
+/// Describes run `r` (corpus case + script) without executing it; used by the watchdog to write a
+/// replay file for a run that makes no progress.
+pub type Describe<'a> = &'a (dyn Fn(u64) -> Option<Violation> + Sync);
+
+pub fn hang_secs() -> u64 {
+    std::env::var("VERIF_HANG_SECS").ok().and_then(|s| s.parse().ok()).unwrap_or(60)
+}
+
 /// Runs `0..runs` sharded over `workers` threads. Each run depends only on its index, chunks are
 /// merged in index order, so the result is independent of the worker count and of timing.
-pub fn run_parallel<F>(cli: &Cli, names: &'static [&'static str], f: F) -> Stats
+///
+/// Liveness: a watchdog thread observes every worker; a single run normally takes microseconds,
+/// so a worker that stays in the same run for `hang_secs()` has met a call that does not return
+/// (e.g. an iterator that never yields `None` under `count()`). The watchdog then writes the run's
+/// script as a replay file, prints a `CANDIDATE-HANG` line and exits with status 3; the driver
+/// confirms it by replaying the script under a time limit.
+pub fn run_parallel<F>(cli: &Cli, property: &str, names: &'static [&'static str], describe: Describe, f: F) -> Stats
 where
     F: Fn(u64, &mut Stats) + Sync,
 {
@@ -251,28 +265,84 @@ where
     let next = AtomicU64::new(0);
     let done: Mutex<Vec<(u64, Stats)>> = Mutex::new(Vec::new());
     let keep_hashlog = cli.hashlog.is_some();
+    let nw = cli.workers;
+    let cur: Vec<AtomicU64> = (0..nw).map(|_| AtomicU64::new(0)).collect();
+    let since: Vec<AtomicU64> = (0..nw).map(|_| AtomicU64::new(0)).collect();
+    let finished = AtomicU64::new(0);
+    let t0 = Instant::now();
+    let limit_ms = hang_secs() * 1000;
     std::thread::scope(|sc| {
-        for _ in 0..cli.workers {
-            sc.spawn(|| loop {
-                let c = next.fetch_add(1, Ordering::Relaxed);
-                if c >= nchunks {
-                    break;
-                }
-                let mut st = Stats::new(names);
-                st.keep_hashlog = keep_hashlog;
-                let lo = c * CHUNK;
-                let hi = ((c + 1) * CHUNK).min(cli.runs);
-                for r in lo..hi {
-                    // a panic that escapes an engine's own `catch` is a bug in the simulator,
-                    // never a verdict about strum
-                    if let Err(p) = catch(|| f(r, &mut st)) {
-                        eprintln!("HARNESS-ERROR simulator panicked in run {}: {}", r, p);
-                        std::process::exit(2);
+        for w in 0..nw {
+            let (cur, since, next, done, finished, f) = (&cur, &since, &next, &done, &finished, &f);
+            sc.spawn(move || {
+                loop {
+                    let c = next.fetch_add(1, Ordering::Relaxed);
+                    if c >= nchunks {
+                        break;
                     }
+                    let mut st = Stats::new(names);
+                    st.keep_hashlog = keep_hashlog;
+                    let lo = c * CHUNK;
+                    let hi = ((c + 1) * CHUNK).min(cli.runs);
+                    for r in lo..hi {
+                        if r % 16 == 0 || limit_ms < 5000 {
+                            // (coarse stamps keep the clock out of the hot path; never on a logging path
+                            // that feeds the trace)
+                            since[w].store(t0.elapsed().as_millis() as u64, Ordering::Relaxed);
+                        }
+                        cur[w].store(r + 1, Ordering::Relaxed);
+                        // a panic that escapes an engine's own `catch` is a bug in the simulator,
+                        // never a verdict about strum
+                        if let Err(p) = catch(|| f(r, &mut st)) {
+                            eprintln!("HARNESS-ERROR simulator panicked in run {}: {}", r, p);
+                            std::process::exit(2);
+                        }
+                    }
+                    done.lock().unwrap().push((c, st));
                 }
-                done.lock().unwrap().push((c, st));
+                cur[w].store(0, Ordering::Relaxed);
+                finished.fetch_add(1, Ordering::Relaxed);
             });
         }
+        // watchdog
+        let (cur, since, finished) = (&cur, &since, &finished);
+        sc.spawn(move || {
+            let mut last_seen: Vec<(u64, u64)> = vec![(0, 0); nw];
+            loop {
+                std::thread::sleep(std::time::Duration::from_millis(200));
+                if finished.load(Ordering::Relaxed) as usize >= nw {
+                    return;
+                }
+                let now = t0.elapsed().as_millis() as u64;
+                for w in 0..nw {
+                    let c = cur[w].load(Ordering::Relaxed);
+                    if c == 0 {
+                        continue;
+                    }
+                    if last_seen[w].0 != c {
+                        last_seen[w] = (c, now);
+                        continue;
+                    }
+                    let _ = since[w].load(Ordering::Relaxed);
+                    if now - last_seen[w].1 > limit_ms {
+                        let run = c - 1;
+                        let mut v = describe(run).unwrap_or(Violation { oracle: "no_progress".into(), signature: "hang".into(), run, case: "?".into(), script: vec![], expected: String::new(), observed: String::new() });
+                        v.oracle = "no_progress".into();
+                        v.signature = "hang".into();
+                        v.expected = format!("every run finishes (a run normally takes microseconds; limit {} s)", limit_ms / 1000);
+                        v.observed = "the run did not finish: some call does not return".into();
+                        let fname = format!("{}/{}-{}-{}-{}-hang.json", cli.replay_dir, property, PROFILE, cli.seed, run);
+                        let _ = std::fs::create_dir_all(&cli.replay_dir);
+                        let j = replay_json(property, cli, &v, v.script.len()).set("minimised", Json::Bool(false));
+                        let _ = std::fs::write(&fname, j.pretty());
+                        println!("CANDIDATE-HANG property={} signature=hang oracle=no_progress replay={}", property, fname);
+                        use std::io::Write;
+                        let _ = std::io::stdout().flush();
+                        std::process::exit(3);
+                    }
+                }
+            }
+        });
     });
     let mut v = done.into_inner().unwrap();
     v.sort_by_key(|(c, _)| *c);
